@@ -22,8 +22,9 @@ Overrides == {StrictCfgH}                               \* what a draw may pass 
 HShapes ==
     {Shape(<<Arg("a", "String", "T")>>, "scalar", "none", "std", FALSE),
      Shape(<<Arg("a", "Reg", "T")>>, "object", "none", "std", FALSE),
-     Shape(<<Arg("a", "Inner", "[T]")>>, "scalar", "same", "std", FALSE)}
-    \cup (IF Thorough THEN {Shape(<<Arg("a", "Outer", "T!")>>, "union", "none", "custom", TRUE),
+     Shape(<<Arg("a", "Inner", "[T]")>>, "scalar", "none", "std", FALSE)}
+    \cup (IF Thorough THEN {Shape(<<Arg("a", "Inner", "[T]")>>, "scalar", "same", "std", FALSE),
+                            Shape(<<Arg("a", "Outer", "T!")>>, "union", "none", "custom", TRUE),
                             Shape(<<Arg("a", "ID", "T")>>, "listobj", "none", "std", FALSE),
                             Shape(<<Arg("a", "Unreg", "T"), Arg("b", "String", "[T!]!")>>, "object", "none", "std", FALSE),
                             Shape(<<Arg("a", "Reg", "[T]")>>, "interface", "other", "std", FALSE)}
